@@ -166,6 +166,15 @@ ADDED8 = {
     "C19": "C19.e: constructing a program does not change sys.path / sys.modules / meta_path; C19.c: registration conditional on the class body defining execute is a violation, other conditions 'cannot decide'.",
     "C20": "Engine D explores unset configuration attributes (`self.x is None`) and knows asarray from asanyarray.",
 }
+ADDED9 = {
+    "C14": "C14.j: wherever a try evaluates other commands, the first handler admitting RecursiveModelStructure hands it on (re-raise, or a non-zero exit in the command-line tool).",
+    "C05": "A stack whose layer axis was moved last (numpy.moveaxis(stack, 0, -1)) is followed through sort / slice / mean along that axis.",
+    "C07": "A shortcut return that the weights only select (not enter) is 'cannot decide'.",
+    "C17": "C17.i: a dialect chosen among fixed dialect classes at run time is 'cannot decide'; C17.e accepts an int() guarded by the exact-bits round trip.",
+    "C19": "C19.e: a module registered in sys.modules inside a try whose finally removes entries is 'cannot decide'.",
+}
+for _k, _v in ADDED9.items():
+    CLAIMS[_k]["text"] += " " + _v
 for _k, _v in ADDED8.items():
     CLAIMS[_k]["text"] += " " + _v
 for _k, _v in ADDED7.items():
